@@ -278,6 +278,21 @@ def inclusion__replay(slice_, cex):
     return {'reproduced': (not matched) and (not ok), 'detail': '%r: fully matched by a real pattern: %s; recognised correctly through the API: %s (%r)' % (w, matched, ok, got)}
 
 
+CARRIERS = {'phone': ['{}', 'call {} now', 'tel:{}', 'my number is {}.'], 'email': ['{}', 'mail {} now', 'to <{}>'], 'url': ['{}', 'see {} now', 'link: {}'],
+            'hashtag': ['{}', 'see {} now'], 'mention': ['{}', 'cc {} now']}
+
+
+def _api_ok_in_carrier(kind, culture, s, carrier):
+    """the entity standing as its own token inside a carrier sentence: exactly one entity, at that position, value = text"""
+    q = carrier.format(s)
+    off = q.index(s)
+    rs = _api(kind, culture, q)
+    if len(rs) != 1 or rs[0].start != off or rs[0].end != off + len(s) - 1:
+        return False, (q, [(r.text, r.start, r.end) for r in rs])
+    res = rs[0].resolution or {}
+    return res.get('value') == rs[0].text and rs[0].text.lower() == s.lower(), (q, res)
+
+
 def api_members(slice_, timeout):
     """composition check on solver-generated members of the layout (not a universal verdict)"""
     kind, culture, name, n = slice_['kind'], slice_['culture'], slice_['layout'], slice_.get('n', 25)
@@ -285,6 +300,13 @@ def api_members(slice_, timeout):
     ws = rx2smt.members(oracle, n)
     bad = []
     for w in ws:
+        if kind in SEQ_KINDS:
+            for c in CARRIERS[kind]:
+                ok, got = _api_ok_in_carrier(kind, culture, w, c)
+                if not ok:
+                    bad.append((w, got))
+                    break
+            continue
         ok, got = _api_ok(kind, culture, name, w)
         if not ok:
             bad.append((w, got))
@@ -295,5 +317,11 @@ def api_members(slice_, timeout):
 
 
 def api_members__replay(slice_, cex):
+    if cex['kind'] in SEQ_KINDS:
+        for c in CARRIERS[cex['kind']]:
+            ok, got = _api_ok_in_carrier(cex['kind'], cex['culture'], cex['witness'], c)
+            if not ok:
+                return {'reproduced': True, 'detail': 'API result for %r in a carrier: %r' % (cex['witness'], got)}
+        return {'reproduced': False, 'detail': 'recognised in every carrier'}
     ok, got = _api_ok(cex['kind'], cex['culture'], cex['layout'], cex['witness'])
     return {'reproduced': not ok, 'detail': 'API result for %r: %r' % (cex['witness'], got)}
